@@ -198,11 +198,36 @@ func (g *Gen) descFor(repo string, present bool, media string) ocispec.Descripto
 	if present {
 		if bl := g.Blobs[repo]; len(bl) > 0 {
 			d := g.pick(bl)
-			return ocispec.Descriptor{MediaType: media, Digest: digest.Digest(d), Size: int64(1 + g.R.Intn(5))}
+			return g.decorate(ocispec.Descriptor{MediaType: media, Digest: digest.Digest(d), Size: int64(1 + g.R.Intn(5))})
 		}
 	}
 	c := g.content()
-	return ocispec.Descriptor{MediaType: media, Digest: digest.Digest(Sha(c)), Size: int64(len(c))}
+	return g.decorate(ocispec.Descriptor{MediaType: media, Digest: digest.Digest(Sha(c)), Size: int64(len(c))})
+}
+
+// decorate gives a descriptor, now and then, the optional members of the image-spec descriptor
+// (urls, annotations, platform, artifactType, embedded data): legal, rarely seen, and none of
+// them changes what the descriptor refers to.
+func (g *Gen) decorate(d ocispec.Descriptor) ocispec.Descriptor {
+	if g.R.Intn(4) != 0 {
+		return d
+	}
+	switch g.R.Intn(6) {
+	case 0:
+		d.URLs = []string{"https://example.com/layer"}
+	case 1:
+		d.URLs = []string{"https://a.example/x", "https://b.example/y"}
+		d.Annotations = map[string]string{"org.example.k": "v"}
+	case 2:
+		d.Annotations = map[string]string{"org.opencontainers.image.title": "t"}
+	case 3:
+		d.Platform = &ocispec.Platform{Architecture: "amd64", OS: "linux"}
+	case 4:
+		d.ArtifactType = "application/vnd.example.thing"
+	case 5:
+		d.Data = []byte("x")
+	}
+	return d
 }
 
 func (g *Gen) manifestContent(repo string) (content []byte, media string) {
@@ -254,7 +279,7 @@ func (g *Gen) manifestContent(repo string) (content []byte, media string) {
 				if g.R.Intn(4) == 0 { // entry naming another media type than the child was stored with
 					media = []string{ocispec.MediaTypeImageManifest, ocispec.MediaTypeImageIndex, "application/vnd.foo"}[g.R.Intn(3)]
 				}
-				ix.Manifests = append(ix.Manifests, ocispec.Descriptor{MediaType: media, Digest: digest.Digest(mr.Digest), Size: mr.Size})
+				ix.Manifests = append(ix.Manifests, g.decorate(ocispec.Descriptor{MediaType: media, Digest: digest.Digest(mr.Digest), Size: mr.Size}))
 			} else {
 				ix.Manifests = append(ix.Manifests, g.descFor(repo, false, ocispec.MediaTypeImageManifest))
 			}
